@@ -190,7 +190,7 @@ func (s *sys) letters() []string {
 	}
 	for i := 0; i < slots; i++ {
 		if s.mode[i] != 0 {
-			ls = append(ls, fmt.Sprintf("Close:%d", i), fmt.Sprintf("Write:%d", i), fmt.Sprintf("Read:%d", i))
+			ls = append(ls, fmt.Sprintf("Close:%d", i), fmt.Sprintf("Write:%d", i), fmt.Sprintf("Read:%d", i), fmt.Sprintf("GC:%d", i))
 		}
 	}
 	if s.rw() >= 0 && s.w.M.Next < 4 {
@@ -329,6 +329,27 @@ func (s *sys) apply(letter string) {
 		}
 		_, _ = s.h[i].GetByKey(drv.Keys[0])
 		s.read[i] = true
+	case "GC":
+		// unload everything that may be unloaded; the handle answers like before (it is read
+		// through again: whatever was dropped has to come back)
+		if err := s.h[i].GC(0); err != nil {
+			s.failf("GC(0) on slot %d failed: %v", i, err)
+		}
+		s.read[i] = false
+		if !s.damaged {
+			save := w.L
+			w.L = s.h[i]
+			nd := len(w.Dis)
+			w.Observe(drv.ObsNext | drv.ObsWalk | drv.ObsGet | drv.ObsKey | drv.ObsStat)
+			w.L = save
+			for _, d := range w.Dis[nd:] {
+				if !strings.HasPrefix(d.Msg, "pre-epoch") {
+					s.failf("after GC(0) (handle mode %d): %s", s.mode[i], d.Msg)
+				}
+			}
+			w.Dis = w.Dis[:nd]
+			s.read[i] = true
+		}
 	case "Write":
 		// Publish/Delete through this handle: read-only handles must refuse
 		if s.mode[i] == 2 {
